@@ -648,7 +648,19 @@ def check_recon(ctx, c, origin):
         kw["wave_name"] = "haar"
     try:
         cls = getattr(mr.app, kind)
-        xo = cls(y.copy(), mps.copy(), lam, weights=None if w is None else w.copy(), coord=coord, **kw).run()
+        yin, mpsin, win = y.copy(), mps.copy(), None if w is None else w.copy()
+        xo = cls(yin, mpsin, lam, weights=win, coord=coord, **kw).run()
+        if c.get("reuse", c["seed"] % 3 == 0):
+            # a second reconstruction from the SAME arrays (lamda sweep, method comparison) must minimise the same
+            # documented objective: the apps may not have altered the caller's k-space, maps or weights
+            xo = cls(yin, mpsin, lam, weights=win, coord=coord, **kw).run()
+        changed = [n_ for n_, a_, b_ in (("ksp", yin, y), ("mps", mpsin, mps), ("weights", win, w))
+                   if a_ is not None and not np.array_equal(a_, b_)]
+        if changed:
+            ctx.fail("C16:%s:mutates-inputs" % kind, "%s modified the caller's %s array(s): a further reconstruction from the "
+                     "same data minimises a different objective" % (kind, "/".join(changed)), dict(kind="recon", case=c),
+                     observed=changed, expected="inputs unchanged", origin=origin)
+            return False
     except Exception as e:  # noqa
         ctx.fail("C16:%s:%s:raises" % (kind, c["solver"]), "%s raised %s on a valid request" % (kind, type(e).__name__),
                  dict(kind="recon", case=c), observed=repr(e)[:300], expected="reconstruction", origin=origin)
